@@ -1158,9 +1158,9 @@ def run(chk: core.Check):
         "waits for the lock.  C: live engine runs per phase; every non-probe request is inspected.  All draws from one PRNG seeded by VERIF_SEED."
     )
     chk.proofs(["Common", "C14"])
-    stage_a(chk, 40 if quick else 400)
+    stage_a(chk, 30 if quick else 400)
     regression_prefix(chk)
-    stage_b(chk, (60 if quick else 600) * (3 if chk.broken else 1))
+    stage_b(chk, (45 if quick else 600) * (3 if chk.broken else 1))
     stage_c(chk, (17 if quick else 10**6) * (3 if chk.broken else 1))
     for f in chk.findings:
         chk.known(f, witness_fails(f["witness"]))
